@@ -12,7 +12,13 @@ SAN_ENV = dict(ASAN_OPTIONS="detect_leaks=1:leak_check_at_exit=0:halt_on_error=1
 
 
 def first_frame(err):
-    for l in err.split("\n"):
+    # the frames of the report proper come first; stop at the allocation / deallocation history that follows them
+    cut = len(err)
+    for marker in ("previously allocated by", "freed by thread", "allocated by thread", "is located"):
+        k = err.find(marker)
+        if 0 <= k < cut:
+            cut = k
+    for l in err[:cut].split("\n"):
         m = re.search(r" in (\w+) .*/src/([\w.-]+):(\d+)", l)
         if m and not m.group(1).startswith("__"):
             return "%s@%s" % (m.group(1), m.group(2))
@@ -61,22 +67,27 @@ def run_hist(item):
     return st
 
 
+CORPUS_OF = {"formula_diff": "formula"}
+
+
 def run_fuzz(item):
-    exe, sdir, target, seed, runs, corpus, tag = item
+    exe, sdir, target, seed, runs, corpus, tag = item[:7]
+    prop = item[7] if len(item) > 7 else "C04"
     st = Stats()
     work = os.path.join(sdir, "fz_%s" % tag)
     os.makedirs(work, exist_ok=True)
     cdir = os.path.join(work, "corpus")
     os.makedirs(cdir, exist_ok=True)
     if corpus:
-        for f in glob.glob(os.path.join(VERIF, "fuzz", "corpus", target, "*")):
+        for f in glob.glob(os.path.join(VERIF, "fuzz", "corpus", CORPUS_OF.get(target, target), "*")):
             shutil.copy(f, cdir)
     env = dict(os.environ, **SAN_ENV)
     env["VERIF_TMP"] = work
     env["FUZZ_API_STATS"] = os.path.join(work, "api_stats.json")
-    cmd = [exe, "-seed=%d" % seed, "-runs=%d" % runs, "-max_len=%d" % (256 if target == "formula" else 2048 if target == "crystalfile" else 512), "-artifact_prefix=" + work + "/",
+    env["FUZZ_DIFF_STATS"] = os.path.join(work, "diff_stats.json")
+    cmd = [exe, "-seed=%d" % seed, "-runs=%d" % runs, "-max_len=%d" % (256 if target.startswith("formula") else 2048 if target == "crystalfile" else 512), "-artifact_prefix=" + work + "/",
            "-print_final_stats=1", "-timeout=20", "-rss_limit_mb=2048", cdir]
-    if target == "formula":
+    if target.startswith("formula"):
         cmd.append("-only_ascii=0")
     p = subprocess.run(cmd, env=env, stdout=subprocess.PIPE, stderr=subprocess.PIPE, timeout=7200)
     err = p.stderr.decode("utf-8", "replace")
@@ -91,6 +102,13 @@ def run_fuzz(item):
             st.cls("fuzz_api_failing_calls", s.get("failing_calls", 0))
         except ValueError:
             pass
+    if target == "formula_diff" and os.path.exists(env["FUZZ_DIFF_STATS"]):
+        try:
+            s = json.load(open(env["FUZZ_DIFF_STATS"]))
+            for k2 in ("accept", "reject", "unspecified"):
+                st.cls("fuzz_verdict:" + k2, s.get(k2, 0))
+        except ValueError:
+            pass
     cov = re.findall(r"cov: (\d+)", err)
     if cov:
         st.note("fuzz_cov_%s_max" % target, int(cov[-1]))
@@ -98,14 +116,14 @@ def run_fuzz(item):
     arts = [f for f in glob.glob(os.path.join(work, "*")) if os.path.basename(f).startswith(("crash-", "leak-"))]
     for a in arts[:3]:
         data = open(a, "rb").read()
-        keep = os.path.join(common.OUT, "replays", "C04")
+        keep = os.path.join(common.OUT, "replays", prop)
         os.makedirs(keep, exist_ok=True)
         dst = os.path.join(keep, "%s-%s" % (target, os.path.basename(a)))
         shutil.copy(a, dst)
         oracle = re.findall(r"ORACLE-FAILURE ([\w-]+)", err)
         head = [l for l in err.split("\n") if "runtime error:" in l or "ERROR: AddressSanitizer" in l or "SUMMARY:" in l or "ORACLE-FAILURE" in l]
         what = ("oracle-" + oracle[0]) if oracle else ("asan" if "AddressSanitizer" in err else "ubsan" if "runtime error" in err else "crash")
-        st.violation("fuzz:%s:%s:%s" % (target, what, first_frame(err)), dict(target=target, artifact=dst, input_hex=data[:300].hex(), corpus=bool(corpus)),
+        st.violation("fuzz:%s:%s:%s" % (target, what, "" if oracle else first_frame(err)), dict(target=target, artifact=dst, input_hex=data[:300].hex(), corpus=bool(corpus)),
                      "no sanitizer report / oracle failure", "\n".join(head[:6]))
     others = [f for f in glob.glob(os.path.join(work, "*")) if os.path.basename(f).startswith(("timeout-", "oom-", "slow-unit-"))]
     if others:
